@@ -158,13 +158,21 @@ Definition reg_diags (cs : list (aview * list dcall)) : list N :=
 (* ------------------------------------------------------------------ legacy timers *)
 (* a case: first id the counter will hand out, the actions, per action the observed size of the cleared set
    (relative to its size at the start of the case) and the number of waiting timers the harness knows of *)
+Fixpoint timer_case (t : timers) (n : N) (steps : list (taction * Z * Z)) (acc : bool * bool * N * N * N) : bool * bool * N * N * N :=
+  match steps with
+  | [] => acc
+  | (a, cleared, waiting) :: rest =>
+      let t' := tstep t a in
+      let stale := Z.of_nat (length (tm_stale t')) in
+      let e1 := Z.eqb (Z.of_nat (length (tm_cleared t'))) cleared in
+      (* bound on the implementation's numbers: cleared <= waiting timers (+ stale clears, the known class) *)
+      let o1 := Z.leb cleared (waiting + stale)%Z && Z.leb 0%Z cleared in
+      let '(ex, ok, iex, iok, mask) := acc in
+      timer_case t' (n + 1)%N rest
+        (ex && e1, ok && o1, if ex && negb e1 then n else iex, if ok && negb o1 then n else iok,
+         N.lor mask (if Z.ltb 0%Z stale then K_STALE_CLEAR else 0%N))
+  end.
 Definition timer_diag (c : nat * list (taction * Z * Z)) : list N :=
-  let acts := map (fun x => fst (fst x)) (snd c) in
-  let sizes := cleared_sizes (timers_init (fst c)) acts in
-  let final := trun (timers_init (fst c)) acts in
-  let exact := list_eqb Z.eqb (map Z.of_nat sizes) (map (fun x => snd (fst x)) (snd c)) in
-  (* bound on the implementation's numbers: cleared <= waiting timers (+ stale clears, the known class) *)
-  let stale := Z.of_nat (length (tm_stale final)) in
-  let ok := forallb (fun x => Z.leb (snd (fst x)) (snd x + stale)%Z && Z.leb 0%Z (snd (fst x))) (snd c) in
-  [if negb ok then 2%N else if exact then 0%N else 1%N; 0%N; if Z.ltb 0%Z stale then K_STALE_CLEAR else 0%N].
+  let '(ex, ok, iex, iok, mask) := timer_case (timers_init (fst c)) 0%N (snd c) (true, true, 0%N, 0%N, 0%N) in
+  if negb ok then [2%N; iok; mask] else if ex then [0%N; 0%N; mask] else [1%N; iex; mask].
 Definition timer_diags (cs : list (nat * list (taction * Z * Z))) : list N := flat_map timer_diag cs.
